@@ -22,7 +22,9 @@ SPEC = {
                   "relay: every byte the relay received is searched for the plaintext markers; rewritten, truncated, spliced, re-encrypted, "
                   "replayed payloads re-wrapped in valid relay packets are injected (rejected, receiver state unchanged), genuine payloads are "
                   "forwarded under the other peer's relay record (delivered, attributed to the inner index's owner), relay tunnels are torn "
-                  "down and re-established and old-session packets replayed.",
+                  "down and re-established and old-session packets replayed; sessions of end-to-end frames are delivered in adversarial orders mixing "
+                  "the relay path and the direct path (the bare inner frame, outer header and tag stripped, from an arbitrary address): each "
+                  "end-to-end counter is delivered at most once whatever the path, attributed to the sender, and a refused copy does not roam.",
     "level_note": "Trusted: Coq kernel; lib/Sym.v's deduction relation as the adversary's power; the harness and the overlay shim "
                   "verif_outside.go; the malicious relay is played by the harness with the key the real relay shares with the endpoint. "
                   "Replay protection is C11/C12 (the case carries the real window's verdict). Handshake messages passing through the relay and "
